@@ -212,6 +212,17 @@ pub fn main(a: Args) -> i32 {
         }
         let jobs = *r.pick(&[1usize, 2, 4, 16]);
         let mut dir = r.below(3); // 0 local, 1 push, 2 pull
+        if a.replay.is_none() && (it == 3 || it == 4) {
+            // directed: --delete of many stale files with long names (quoted, the whole list is far beyond the 128 KiB
+            // a single exec argument may have; as a NUL list it is several pipe buffers long), push and pull
+            del = true;
+            dir = if it == 3 { 1 } else { 2 };
+            excludes.clear();
+            for i in 0..(if a.tier == "thorough" { 2500 } else { 760 }) {
+                let p = format!("stale dir/{:04} {}", i, "n".repeat(180));
+                if !clash(&p, &used) { used.push(p.clone()); dst.push((p, b"s".to_vec(), 1_600_000_000, 0)); }
+            }
+        }
         if a.replay.is_some() {
             // `<id> SRC=.. DST=.. EX=.. DEL=.. [DIR=local|push|pull]`
             src.clear(); dst.clear(); excludes.clear();
